@@ -119,7 +119,10 @@ N_LARGE_T = list(range(201, 601)) + list(range(625, 2001, 25))
 INTERVALS = [(-1.0, 1.0), (0.0, 1.0), (-3.0, -1.0), (0.0, 1e-9), (0.0, 1e-300),
              (-1e6, 1e6), (2.0, 1.0)]
 INTERVALS_T = [(1e-300, 0.0), (-1e300, 1e300), (1.0, 1e6), (-0.1, 0.2)]
-INTERVALS_SMALL_N = [(5.0, 5.0 + 1e-9), (1e10, 1e10 + 1.0)]      # n <= 20 only
+INTERVALS_SMALL_N = [(5.0, 5.0 + 1e-9), (1e10, 1e10 + 1.0),      # n <= 20 only
+                     # narrow windows at large, non-dyadic offsets (a Julian-date window, a frequency band): the
+                     # half width must not be taken from a rounded midpoint
+                     (1e6 + 0.1, 1e6 + 0.1 + 1e-3), (123456.789, 123456.79), (2459000.5123, 2459000.5124)]
 SMALL_N = 20
 
 EXACT_NMAX = 30
@@ -659,7 +662,7 @@ def main(ctx):
 
     def q_do(q, kind, op):
         if op[0] == "func":
-            return [q.integrate(np.array([0.0, 2.0]), np.exp, npts=op[1])]
+            return [q.integrate(np.array([0.0, 2.0]), lambda t: np.exp(t), npts=op[1])]
         xs = np.array([0.0, 0.5, 1.5, 2.0, 4.0])
         return [q.integrate(xs, np.array([1.0, 3.0, -1.0, 2.0, 0.5]), npts=op[1])]
 
@@ -692,9 +695,22 @@ def main(ctx):
 
     SEQ_CALLS = [("gauleg", -1.0, 1.0, 5), ("gauleg", 0.0, 2.0, 5), ("gauleg", -1.0, 1.0, 12), ("gauleg", 3.0, 1.0, 5),
                  ("qgauss", "x1", 5), ("qgauss", "x2", 5), ("qgauss", "x1", 12), ("obj-data", "x1", 5), ("obj-data", "x2", 5),
-                 ("obj-func", 5), ("obj-func", 12)]
+                 ("obj-func", 5), ("obj-func", 12), ("nested", 5), ("nested", 8)]
 
     def seq_run(c, pool):
+        if c[0] == "nested":
+            # re-entrant use: the integrand itself integrates with the SAME object (a nested integral
+            # int_0^2 [ int_0^x exp(t) dt ] dx); the inner calls use other interval widths
+            qg = QGauss(c[1])
+            inner = lambda xs: np.array([qg.integrate(np.array([0.0, float(xi)]), lambda t: np.exp(t)) for xi in np.atleast_1d(xs)])
+            got = float(qg.integrate(np.array([0.0, 2.0]), inner))
+            gx, gw = np.polynomial.legendre.leggauss(c[1])
+            xo = gx + 1.0
+            ref = float(np.sum(gw * np.array([np.sum(0.5 * xi * gw * np.exp(0.5 * xi * (gx + 1.0))) for xi in xo])))
+            if not abs(got - ref) <= 1e-9 * abs(ref):
+                raise CheckFailed("nested integral with one QGauss(%d) object = %r, the weighted double sum over the reference "
+                                  "rule = %r" % (c[1], got, ref))
+            return [np.asarray(got)]
         if c[0] == "gauleg":
             x, w = gauleg(c[1], c[2], c[3])
             rx, rw = np.polynomial.legendre.leggauss(c[3])
@@ -709,7 +725,7 @@ def main(ctx):
             return [np.asarray(qgauss(pool[c[1]], pool["y"], c[2]))]
         if c[0] == "obj-data":
             return [np.asarray(QGauss(c[2]).integrate(pool[c[1]], pool["y"]))]
-        return [np.asarray(QGauss(c[1]).integrate(np.array([0.0, 2.0]), np.exp))]
+        return [np.asarray(QGauss(c[1]).integrate(np.array([0.0, 2.0]), lambda t: np.exp(t)))]
 
     call_sequences(ctx, "call-sequences", seq_pool, SEQ_CALLS, seq_run, lambda: [integrate.util], depth=ctx.pick(3, 4),
                    nodedup_depth=3, result_edits=True)
